@@ -37,6 +37,7 @@ class Sched:
         self.cur = None
         self.trace = []          # chosen actor at every decision
         self.decisions = []      # (runnable actors, chosen) at every decision (systematic search)
+        self.only_kinds = None   # if set: only events of these kinds are decision points
         self.res = {}
         self.err = {}
         self.steps = 0
